@@ -23,6 +23,8 @@ SHOTS = {
     'transonic': {'zero': 0.5, 'twist': 12.0, 'dm': 'G1', 'bc': 0.1, 'mv': 1250.0, 'look': 10.0},
     'arc30': {'zero': 30.0, 'mv': 1500.0},
     'tail': {'wind': 'tail', 'zero': 0.2},
+    'tailslow': {'wind': 'tail60', 'mv': 900.0, 'zero': 1.0},      # ground advance per step 10 % above the air-relative step
+    'tailarc': {'wind': [[15, 0, None]], 'mv': 1200.0, 'zero': 30.0, '_ranges': (1500.0, 3000.0), '_steps': ('R', 100.0, 500.0), '_tsteps': (0.0, 0.25)},
     # long, nearly level: the bullet falls through the 30-ft atmosphere shortcut well inside the shorter ranges, and the ranges straddle
     # range x tan(elevation) = 30 ft, so anything decided from the requested range alone shows up
     'flat_long': {'zero': 0.4, '_ranges': (3600.0, 4200.0, 4500.0), '_steps': ('R', 300.0, 900.0), '_tsteps': (0.0, 0.5)},
@@ -178,7 +180,7 @@ PARTS = {'pairs': pairs, 'filter': filt}
 
 
 def plan(tier):
-    shots = list(SHOTS) if tier == 'thorough' else ['multiwind', 'transonic', 'tail', 'flat_long', 'down_long']
+    shots = list(SHOTS) if tier == 'thorough' else ['multiwind', 'transonic', 'tail', 'tailslow', 'tailarc', 'flat_long', 'down_long']
     pr = [[s, a, b] for s in shots for a in range(NBLOCKS) for b in range(a, NBLOCKS)]
     depth = 6 if tier == 'quick' else 8
     fl = [[list(p), depth] for p in itertools.product((0.75, 1.0, 1.25), repeat=3)]
